@@ -21,12 +21,14 @@ inductive Status | ok | noparse | notypecheck
 inductive Call
   | min (n : Int) | max (n : Int) | gt (n : Int) | gte (n : Int) | lt (n : Int) | lte (n : Int)
   | email | url | regex | optional | nilable
+  | length (n : Nat) | positive | negative | nonnegative | nonpositive    -- round 4b: the writer with pending/C13-dropped-rules
   | other (name : String)
   deriving DecidableEq, Repr
 
 inductive Ctor
   | prim            -- gozod.String() / Int8() / … / Bool(): the primitive constructor of the field's base type
   | uuid            -- gozod.UUID()
+  | url             -- gozod.URL()  (round 4b: the writer with pending/C13-url-constructor)
   | fromStruct      -- gozod.FromStruct[T]() for a named struct T
   | other (src : String)
   deriving DecidableEq, Repr
@@ -44,10 +46,12 @@ def Call.rule? : Call → Option TRule
   | .min n => some (.min n) | .max n => some (.max n)
   | .gt n => some (.gt n) | .gte n => some (.gte n) | .lt n => some (.lt n) | .lte n => some (.lte n)
   | .email => some .email | .url => some .url | .regex => some .regex
+  | .length n => some (.length n)
+  | .positive => some .positive | .negative => some .negative | .nonnegative => some .nonnegative | .nonpositive => some .nonpositive
   | _ => none
 
 def chainRules (ctor : Ctor) (chain : List Call) : List TRule :=
-  (match ctor with | .uuid => [.uuid] | _ => []) ++ chain.filterMap Call.rule?
+  (match ctor with | .uuid => [.uuid] | .url => [.url] | _ => []) ++ chain.filterMap Call.rule?
 
 def acceptsNil (chain : List Call) : Bool :=
   chain.any fun c => match c with | .optional | .nilable => true | _ => false
@@ -137,6 +141,8 @@ def Call.ofString? (s : String) : Call :=
   | ["Gte", n] => (n.toInt?.map Call.gte).getD (.other s)
   | ["Lt", n] => (n.toInt?.map Call.lt).getD (.other s)
   | ["Lte", n] => (n.toInt?.map Call.lte).getD (.other s)
+  | ["Length", n] => (n.toNat?.map Call.length).getD (.other s)
+  | ["Positive"] => .positive | ["Negative"] => .negative | ["NonNegative"] => .nonnegative | ["NonPositive"] => .nonpositive
   | ["Email"] => .email | ["URL"] => .url
   | ["Optional"] => .optional | ["Nilable"] => .nilable
   | "Regex" :: _ => .regex
@@ -150,6 +156,7 @@ def primCtors : List String :=
 def Ctor.ofString? (s : String) : Ctor :=
   if primCtors.contains s then .prim
   else if s == "gozod.UUID()" then .uuid
+  else if s == "gozod.URL()" then .url
   else if s == "gozod.FromStruct[Inner]()" || s == "gozod.FromStruct[InnerT]()" then .fromStruct
   else .other s
 
